@@ -26,7 +26,13 @@ func checkC17(c *Ctx) {
 	if err != nil || !res.Completed {
 		Infra("CliRunMC: %v\n%s", err, res.Tail)
 	}
-	c.AddTLC("CliRunMC RootsPlan", res.Generated, res.Distinct, res.Wall, "ReadOnly action property")
+	c.AddTLC("CliRunMC RootsPlan", res.Generated, res.Distinct, res.Wall, "ReadOnly (action property and invariant of every state, runs stopped from outside included)")
+	// control: a run that keeps a file of its own in the git directory while it scans is refuted
+	ctl, _ := tlcrun.Run(tlcrun.Job{Module: "CliRunMC", Cfg: cliRunCfgLock("RootsPlan", true, true), Workers: 4})
+	if ctl == nil || (ctl.Violated != "ReadOnlyInv" && ctl.Violated != "ReadOnly") {
+		Infra("CliRunMC with KeepsLockFile = TRUE should refute ReadOnly")
+	}
+	c.AddTLC("CliRunMC RootsPlan KeepsLockFile=TRUE (control)", ctl.Generated, ctl.Distinct, ctl.Wall, "ReadOnly refuted, as it must be")
 	env := newScanEnv(c, true, false)
 	race, err := run.BuildSizer(filepath.Join(c.Scratch, "racebin"), "verif", true)
 	if err != nil {
